@@ -1,132 +1,111 @@
 """Level texts of MANIFEST.json, one entry per claimed property.  Kept next to the generator so that the
 manifest is regenerated (tools/mkmanifest.py) whenever what is proved changes."""
 
-COMMON_NOTE = ('Trusted: Lean 4.33 kernel; axioms propext, Classical.choice, Quot.sound only (audited per theorem on every run; '
-               'no sorry/native_decide/bv_decide/own axioms); the hand-written statements in lean/Props; the Lean compiler for the '
-               'model driver; the Go probes/generators/canonicalisation; the verif-tagged read-only hooks. The models are hand-written; '
-               'their tie to /repo is the differential correspondence run on every check plus the regenerated constants in lean/Gen. ')
+COMMON_NOTE = 'Trusted: Lean 4.33 kernel; axioms propext, Classical.choice, Quot.sound only (audited per theorem on every run; no sorry/native_decide/bv_decide/own axioms); the hand-written statements in lean/Props; the Lean compiler for the model driver; the Go probes/generators/canonicalisation; the verif-tagged read-only hooks. The models are hand-written; their tie to /repo is the differential correspondence run on every check plus the regenerated constants in lean/Gen. '
 
 TEXTS = {
  'C01': dict(
-  text='Proved in Lean (all inputs, no size bound): on a linear history of one file with arbitrary valid edit scripts the tracker replay equals the '
-       'plain-array replay, every reported delta carries its commit tick, the deltas up to sample T account per birth tick exactly for the lines alive '
-       'after the last commit with tick <= T (sampled_row), the dense matrix built by groupSparseHistory has the stated shape and cell sums (group_spec), '
-       'global / per-developer / ownership totals agree (run_totals), and the edit loop of handleModification realises the edit script (translate_realises). '
-       'The models of File.Update, groupSparseHistory, the three updaters, BurndownAnalysis.Consume (one branch) and Consume/Fork/Merge (DAG, several branches) '
-       'are validated against the real code on every run. The DAG theorem (conflict-free histories through merges) is not proved: that part is partial = '
-       'validated multi-branch model + end-to-end ground-truth oracle on generated conflict-free histories through the real Pipeline.Run.',
+  text='Proved in Lean (all inputs, no size bound): on a linear history of one file with arbitrary valid edit scripts the tracker replay equals the plain-array replay, every reported delta carries its commit tick, the deltas up to sample T account per birth tick exactly for the lines alive after the last commit with tick <= T (sampled_row), the dense matrix built by groupSparseHistory has the stated shape and cell sums (group_spec), global / per-developer / ownership totals agree (run_totals), and the edit loop of handleModification realises the edit script (translate_realises). Repository level, linear history, any number of files with insertions, deletions and modifications (history_inv, inv_init): after every commit the per-birth-tick sums of the reported deltas equal the birth-tick histogram of the lines alive in the ground-truth arrays, no cumulative cell is negative (hist_nonneg), the total equals the number of live lines (total_lines) and this holds at every sampling point (sampled_rows). The models of File.Update, groupSparseHistory, the three updaters, BurndownAnalysis.Consume (one branch) and Consume/Fork/Merge (DAG, several branches) are validated against the real code on every run. The DAG theorem (conflict-free histories through merges) is not proved: that part is partial = validated multi-branch model + end-to-end ground-truth oracle on generated conflict-free histories through the real Pipeline.Run.',
   note=COMMON_NOTE + 'Modelled, not verified: go-git, diffmatchpatch line identity for repeated lines, renames/binary flips inside Consume (oracle only).',
-  technique='Lean 4 proof (induction over commits/ops, refinement to array) + differential correspondence + ground-truth oracle'),
+  technique='Lean 4 proof (induction over commits/ops, refinement to array) + differential correspondence + ground-truth oracle',
+ ),
  'C02': dict(
   category='translation_validation',
-  text='Every plan the real planner returns is checked by an executable validator (Pl.checkPlan) whose acceptance is proved in Lean to imply the property step by step '
-       '(step_commit_sound: an accepted replay runs on a live branch holding exactly the ancestry of its last-replayed non-redundant parent, or on a fresh branch for a root; '
-       'mem_ancestors_iff: computed ancestor sets = the inductive ancestor relation). Validated on every run: all graphs of <=5 commits x all hash orders (exhaustive), '
-       '6 commits x sampled orders, random graphs to 60 commits; verdicts of the Lean validator and of an independent Go executor must agree on every plan. '
-       'No universal theorem about the planner itself (the statement is false of the code: two known-finding classes, frozen small-scope lists).',
+  text='Every plan the real planner returns is checked by an executable validator (Pl.checkPlan) whose acceptance is proved in Lean to imply the property step by step (step_commit_sound: an accepted replay runs on a live branch holding exactly the ancestry of its last-replayed non-redundant parent, or on a fresh branch for a root; step_merge_sound: an accepted merge joins live branches that all hold the same last commit; mem_ancestors_iff: computed ancestor sets = the inductive ancestor relation; checkPlan_sound: an accepted whole plan analyses every commit of the graph, each the number of times its non-redundant parents demand, and every step satisfies the step obligations). Validated on every run: all graphs of <=5 commits x all hash orders (exhaustive), 6 commits x sampled orders, random graphs to 60 commits; verdicts of the Lean validator and of an independent Go executor must agree on every plan. No universal theorem about the planner itself (the statement is false of the code: two known-finding classes, frozen small-scope lists).',
   note=COMMON_NOTE + 'The planner algorithm (mergeDag, collapseFastForwards, generatePlan) is validated per plan, not proved.',
-  technique='translation validation by a Lean-proved plan checker + exhaustive small-scope enumeration'),
+  technique='translation validation by a Lean-proved plan checker + exhaustive small-scope enumeration',
+ ),
  'C03': dict(
-  text='Fully proved in Lean for every well-formed tracker state and every operation sequence: update_refines_splice (per-line values = splice of the array), update_ok '
-       '(well-formedness and length preserved), updates_refine (lift to all sequences), update_deltas (reported deltas keep the histogram equal to the array histogram), '
-       'update_rejects (a range past the end is refused), newFile_wf. The model is the statement-by-statement mirror of the repaired File.Update; it is compared with the real '
-       'function (node list, every updater call, panics) on >=30 000 generated sequences per quick run, and the Go array oracle states the property on the implementation.',
+  text='Fully proved in Lean for every well-formed tracker state and every operation sequence: update_refines_splice (per-line values = splice of the array), update_ok (well-formedness and length preserved), updates_refine (lift to all sequences), update_deltas (reported deltas keep the histogram equal to the array histogram), update_rejects (a range past the end is refused), newFile_wf. The model is the statement-by-statement mirror of the repaired File.Update; it is compared with the real function (node list, every updater call, panics) on >=30 000 generated sequences per quick run, and the Go array oracle states the property on the implementation.',
   note=COMMON_NOTE + 'Interval list stands for the red-black tree (justified by C05); merge-mark operations are covered by correspondence and oracle only.',
-  technique='Lean 4 refinement proof (tracker -> plain array) + differential correspondence + array oracle'),
+  technique='Lean 4 refinement proof (tracker -> plain array) + differential correspondence + array oracle',
+ ),
  'C04': dict(
-  text='Proved in Lean for every plan and every hibernation distance: erasing the inserted hibernate/boot actions gives back the input plan (erase_insertHibernateBoot, erase_insertHB2) and '
-       'in the result every branch is awake at each of its uses and at its disposal, is never hibernated twice or booted while awake, and nothing stays hibernated (insertHB2_awake). '
-       'collectGarbage and insertHibernateBoot models are compared with the real stage outputs on every run; the base plan lifecycle (created once, never used after disposal, merges of '
-       'live branches with the same last commit, master branch complete) is validated per plan by the Lean checker on the exhaustive and random graph sets of C02.',
-  note=COMMON_NOTE + 'gc_sound and master_has_all are validated per plan, not yet proved universally.',
-  technique='Lean 4 proof (monitor invariant over all plans and distances) + per-plan validation'),
+  text='Proved in Lean for every plan and every hibernation distance: erasing the inserted hibernate/boot actions gives back the input plan (erase_insertHibernateBoot, erase_insertHB2) and in the result every branch is awake at each of its uses and at its disposal, is never hibernated twice or booted while awake, and nothing stays hibernated (insertHB2_awake). collectGarbage: erase_gc (removing the inserted disposals gives back the input), lastMentioned_spec and gc_go_shape (a disposal is placed right after the last action that mentions the branch, and nowhere else). Per-step lifecycle obligations of the validator are proved (step_emerge_sound, step_fork_sound, step_delete_sound: a branch is created only when absent and disposed only when live). collectGarbage and insertHibernateBoot models are compared with the real stage outputs on every run; the base plan lifecycle is validated per plan by the Lean checker on the exhaustive and random graph sets of C02.',
+  note=COMMON_NOTE + 'master_has_all (the root branch ends holding every commit) is validated per plan, not proved universally.',
+  technique='Lean 4 proof (monitor invariant over all plans and distances) + per-plan validation',
+ ),
  'C05': dict(
-  text='Proved in Lean on a zipper model that matches the real tree structure-exactly (node indices, colours, min/max, count): insert and delete preserve the red-black shape '
-       '(equal black height, no red-red, black root), the in-order list of (node index, key, value) changes exactly as an ordered map requires (so untouched elements keep their node: iterator stability), '
-       'every reachable tree satisfies the invariant (reachable_inv, induction over all operation sequences), FindGE/FindLE return the first/last in-order entry beyond the key. '
-       'Correspondence after every operation on every run; Go-side invariant checker (incl. parent links) as oracle.',
+  text='Proved in Lean on a zipper model that matches the real tree structure-exactly (node indices, colours, min/max, count): insert and delete preserve the red-black shape (equal black height, no red-red, black root), the in-order list of (node index, key, value) changes exactly as an ordered map requires (so untouched elements keep their node: iterator stability), every reachable tree satisfies the invariant (reachable_inv, induction over all operation sequences), FindGE/FindLE return the first/last in-order entry beyond the key, and Len/Min/Max/Get/Next/Prev agree with the in-order list (size_spec, minId_spec, maxId_spec, get_spec, next_spec, prev_spec). Correspondence after every operation on every run (structure incl. parent links, iterators, multi-tree arenas); Go-side invariant checker as oracle.',
   note=COMMON_NOTE + 'Parent-link consistency and Erase are checked by the Go invariant checker and correspondence, not proved; Go slice bounds/nil are not modelled.',
-  technique='Lean 4 invariant proof by induction over operations + structure-exact correspondence'),
+  technique='Lean 4 invariant proof by induction over operations + structure-exact correspondence',
+ ),
  'C06': dict(
-  text='Proved in Lean: malloc_fresh (an index handed out belongs to no tree and no gap), NoAlias preserved by insert and delete on any tree of a shared arena (insertW_noAlias, deleteW_noAlias), '
-       'cloneDeep_spec, and for every arena and threshold boot(hibernate a)=a, the disk round trip, and that a below-threshold/empty allocator is left untouched. '
-       'Models compared with the real allocator (storage, gaps, hibernation buffers, the three panics) on every run.',
-  note=COMMON_NOTE + 'LZ4 (lz4hc.c) is assumed to round-trip; goroutines inside Hibernate/Boot and OS file semantics are not modelled; byte-level file truncation is not yet proved.',
-  technique='Lean 4 proof (permutation/invariant arguments, round-trip laws) + differential correspondence'),
+  text="Proved in Lean: malloc_fresh (an index handed out belongs to no tree and no gap), NoAlias preserved by insert and delete on any tree of a shared arena (insertW_noAlias, deleteW_noAlias), eraseW_noAlias, insert_frame/delete_frame (an operation on one tree of a shared arena leaves every other tree's contents unchanged), cloneDeep_spec, and for every arena and threshold boot(hibernate a)=a, the disk round trip, that a below-threshold/empty allocator is left untouched, and on the byte level of the allocator file: deserialize_serialize (varint + column layout round trip) and prefix_fails (every proper prefix of a file is refused, never read as a shorter arena). Models compared with the real allocator (storage, gaps, hibernation buffers, the three panics) on every run.",
+  note=COMMON_NOTE + 'LZ4 (lz4hc.c) is assumed to round-trip; goroutines inside Hibernate/Boot and OS file semantics are not modelled;',
+  technique='Lean 4 proof (permutation/invariant arguments, round-trip laws) + differential correspondence',
+ ),
  'C07': dict(
-  text='Proved in Lean: resolve_spec / bestFrom_spec (each merged line takes the earliest copy with the least real tick, or the merge tick with exactly one report when all copies carry the mark) and '
-       'merge_all_identical (after the analysis-level merge every participating branch holds the same interval list for every flagged file). Per-line model of File.Merge and the multi-branch model '
-       'of BurndownAnalysis.Merge are compared with the real code on every run.',
-  note=COMMON_NOTE + 'Lift of the per-line law through the run-length encoding to interval lists is covered by correspondence, not yet by a theorem.',
-  technique='Lean 4 proof + differential correspondence'),
+  text='Proved in Lean: resolve_spec / bestFrom_spec (each merged line takes the earliest copy with the least real tick, or the merge tick with exactly one report when all copies carry the mark) and merge_all_identical (after the analysis-level merge every participating branch holds the same interval list for every flagged file), flat_rle and merged_nodes_pointwise (expanding the merged interval list gives back exactly the per-line resolution). Per-line model of File.Merge and the multi-branch model of BurndownAnalysis.Merge are compared with the real code on every run.',
+  note=COMMON_NOTE + 'The lift of the per-line law through the run-length encoding is proved (flat_rle, merged_nodes_pointwise); the in-place node surgery of File.Merge is tied to the rle form by correspondence.',
+  technique='Lean 4 proof + differential correspondence',
+ ),
  'C08': dict(
-  text='Proved in Lean on the multi-branch burndown model with explicit sharing: whatever change is replayed on one branch, every other branch copy (files, tick, merge author, mergedFiles reference) is unchanged '
-       '(doOp_frame, beginCommit_frame, endCommit_frame). That the code shares exactly what the model shares is established by correspondence with the real Fork/Consume/Merge on every run '
-       '(a copy sharing the arena or file map diverges on the first sibling edit) and by the deep-clone correspondence.',
+  text='Proved in Lean on the multi-branch burndown model with explicit sharing: whatever change is replayed on one branch, every other branch copy (files, tick, merge author, mergedFiles reference) is unchanged (doOp_frame, beginCommit_frame, endCommit_frame), and on the arena level insert_frame/delete_frame (trees of one allocator do not disturb each other). That the code shares exactly what the model shares is established by correspondence with the real Fork/Consume/Merge on every run (a copy sharing the arena or file map diverges on the first sibling edit) and by the deep-clone correspondence.',
   note=COMMON_NOTE + 'Plumbing items (TreeDiff, BlobCache, TicksSinceStart) per-branch memory: checked by a fork-isolation oracle on the real items, no theorem yet.',
-  technique='Lean 4 frame theorem + differential correspondence'),
+  technique='Lean 4 frame theorem + differential correspondence',
+ ),
  'C09': dict(
-  text='Proved in Lean: run2_transparent (for items whose Hibernate/Boot cannot fail, running a plan with hibernate/boot actions gives the same result and the same event log modulo H/B events as the erased plan), '
-       'isMerge_erase, plus the allocator round trips of C06 and insertHB2_awake of C04. The interpreter model is compared with the real Pipeline.Run event log including injected Hibernate/Boot failures on every run.',
-  note=COMMON_NOTE + 'OS behaviour (temp files, truncation) and LZ4 are assumed; error surfacing for failing hibernation is validated by correspondence, not yet proved.',
-  technique='Lean 4 simulation proof + differential correspondence with fault injection'),
+  text='Proved in Lean: run2_transparent (for items whose Hibernate/Boot cannot fail, running a plan with hibernate/boot actions gives the same result and the same event log modulo H/B events as the erased plan), isMerge_erase, run2_fault_safe (when a Hibernate or Boot fails the run stops with that error and no item is consumed afterwards), plus the allocator round trips of C06 and insertHB2_awake of C04. The interpreter model is compared with the real Pipeline.Run event log including injected Hibernate/Boot failures on every run.',
+  note=COMMON_NOTE + "OS behaviour (temp files, truncation) and LZ4 are assumed; burndown's on-disk hibernation glue is covered by correspondence only.",
+  technique='Lean 4 simulation proof + differential correspondence with fault injection',
+ ),
  'C10': dict(
   category='translation_validation',
-  text='The model of Pipeline.resolve for item sets with at most one provider per entity is compared with the real Initialize on every run (orders and errors); the abstract Kahn algorithm underneath is proved sound in Lean (C15). '
-       'The ordering theorem for resolve and the built-in table check are not yet proved; duplicated providers beyond base+refiner are a known finding.',
-  note=COMMON_NOTE + 'No property theorem yet: evidence is the validated model plus the Go order-validity oracle.',
-  technique='differential correspondence + Go order-validity oracle (theorems pending)'),
+  text='Every order the real Pipeline.Initialize returns is checked by the executable validator Ord.orderValid, whose acceptance is proved in Lean to imply the property (orderValid_sound: the order lists every deployed item exactly once and nothing else, and each item comes after every other provider of one of its inputs unless that provider is downstream of it; down_sound: everything the checker exempts as downstream really is). In addition the model of Pipeline.resolve (at most one provider per entity) is compared with the real Initialize on orders and errors, on top of the toposort refinement proved for C15. No universal theorem about resolve itself; duplicated providers beyond base+refiner are a known finding.',
+  note=COMMON_NOTE + 'resolve is validated per returned order, not proved; the built-in item table is exercised through the registry by the e10 oracle.',
+  technique='translation validation by a Lean-proved order checker + differential correspondence + Go order-validity oracle',
+ ),
  'C11': dict(
-  text='Proved in Lean: countLines_eq_split (the line counter used when a file is first seen equals the number of lines the diff splitter produces, for every byte string: empty, no final newline, CR LF, invalid UTF-8), '
-       'splitLines_join, translate_ok_of_canon (a canonical script with positive run lengths is never rejected by the burndown edit loop). Models compared with CountLines / DiffLinesToRunes on every run; '
-       'every diff produced by the real FileDiff on generated blob pairs is checked Go-side for the canonical shape and count consistency.',
+  text='Proved in Lean: countLines_eq_split (the line counter used when a file is first seen equals the number of lines the diff splitter produces, for every byte string: empty, no final newline, CR LF, invalid UTF-8), splitLines_join, translate_ok_of_canon (a canonical script with positive run lengths is never rejected by the burndown edit loop), validScript_sound (a script accepted by the executable validator has consistent line counts on both sides and applies to the old line array giving the new one). Models compared with CountLines / DiffLinesToRunes on every run; every diff produced by the real FileDiff on generated blob pairs (incl. very long lines) is checked by the Lean validator and Go-side for the canonical shape and count consistency.',
   note=COMMON_NOTE + 'diffmatchpatch itself and its timeouts are not modelled; whitespace-ignore mode: known finding D14.',
-  technique='Lean 4 proof + differential correspondence + script validator oracle'),
+  technique='Lean 4 proof + differential correspondence + script validator oracle',
+ ),
  'C12': dict(
-  text='Proved in Lean: lineStats_conserve (added+changed = inserted, removed+changed = deleted for every script without two deletes in a row) and counted_once (the one-shot merge processor counts every replayed commit exactly once however often a merge commit is replayed). '
-       'Models compared with LinesStatsCalculator and with the real Pipeline.Run event log on every run.',
-  note=COMMON_NOTE,
-  technique='Lean 4 proof + differential correspondence'),
+  text='Proved in Lean: lineStats_conserve (added+changed = inserted, removed+changed = deleted for every script without two deletes in a row) and counted_once (the one-shot merge processor counts every replayed commit exactly once however often a merge commit is replayed). commit_conserves (summing over the files of a commit preserves both equalities). Models compared with LinesStatsCalculator and with the real Pipeline.Run event log on every run.',
+  note=COMMON_NOTE + '',
+  technique='Lean 4 proof + differential correspondence',
+ ),
  'C13': dict(
-  text='Proved in Lean: scan_count (for hash-sorted lists the merge scan pairs exactly min(#added,#deleted) per content hash) and scan_partition (it only re-pairs). Stage 1 is compared with the real RenameAnalysis.Consume on inputs where stages 2-3 cannot match; '
-       'the full re-pairing property is stated Go-side on every output (all sizes, thresholds, timeouts). Partial: stages 2-3 and the goroutine hand-off protocol are not modelled; data races and scheduling cannot be exhibited by the model.',
+  text='Proved in Lean: scan_count (for hash-sorted lists the merge scan pairs exactly min(#added,#deleted) per content hash) and scan_partition (it only re-pairs), applyMatches_perm (applying any set of stage-2 similarity matches to the leftover additions/deletions yields renames + leftovers that are a permutation of the input sides: nothing lost, nothing duplicated). Stage 1 is compared with the real RenameAnalysis.Consume on inputs where stages 2-3 cannot match; the full re-pairing property is stated Go-side on every output (all sizes, thresholds, timeouts). Partial: the similarity decision (stage 2 matcher, observed choice) and the goroutine hand-off protocol are not modelled; data races and scheduling cannot be exhibited by the model.',
   note=COMMON_NOTE + 'Unstable sorts and goroutine scheduling are outside the model.',
-  technique='Lean 4 proof (stage 1) + differential correspondence + re-pairing oracle'),
+  technique='Lean 4 proof (stage 1 scan, stage 2 application) + differential correspondence + re-pairing oracle',
+ ),
  'C14': dict(
-  text='Proved in Lean on the interpreter model of Pipeline.Run: consumeAll2_ok (a successful commit step calls every item of the branch once in resolved order with this commit, index and merge flag, each seeing the output of the last upstream provider for this commit and branch), '
-       'stepCore_idx (the index grows by one per commit action only), runLoop2_error (an item error aborts the run), isMerge_iff (merge flag true exactly when another replay of the commit exists, for plans with adjacent replays). '
-       'The model event log is compared with the real Pipeline.Run with recording items (fork by copy/sharing, four injected failure kinds) on every run.',
+  text='Proved in Lean on the interpreter model of Pipeline.Run: consumeAll2_ok (a successful commit step calls every item of the branch once in resolved order with this commit, index and merge flag, each seeing the output of the last upstream provider for this commit and branch), stepCore_idx (the index grows by one per commit action only), runLoop2_error (an item error aborts the run), isMerge_iff (merge flag true exactly when another replay of the commit exists, for plans with adjacent replays), run2_summary (the summary facts - commit count, begin/end time - are those of the replayed commits). The model event log is compared with the real Pipeline.Run with recording items (fork by copy/sharing, four injected failure kinds) on every run.',
   note=COMMON_NOTE + 'Adjacency of replays is validated per plan (C02), not proved of the planner.',
-  technique='Lean 4 proof over an interpreter model + differential correspondence of event logs'),
+  technique='Lean 4 proof over an interpreter model + differential correspondence of event logs',
+ ),
  'C15': dict(
-  text='Proved in Lean: toposortP_sound / toposort_sound (for distinct nodes and distinct edges a reported success is a duplicate-free list of exactly the nodes with every edge pointing forward, for every child order). '
-       'The concrete graph model (ranks, in-degree counters, removal + re-indexing) is compared with the real toposort.Graph on every run. Completeness (acyclic => success), FindCycle and order-independence are validated by correspondence/oracle, not yet proved.',
-  note=COMMON_NOTE,
-  technique='Lean 4 invariant proof (Kahn) + differential correspondence'),
+  text='Proved in Lean: toposortP_sound / toposort_sound (for distinct nodes and distinct edges a reported success is a duplicate-free list of exactly the nodes with every edge pointing forward, for every child order). Completeness: toposortP_complete, not_ranked_of_cycle, toposort_success_iff (success if and only if the graph is acyclic). The concrete graph model (ranks, in-degree counters, unsafeRemoveEdge, re-indexing) is proved to refine the abstract algorithm (G_toposort_sound, G_toposort_complete, G_toposort_cyclic) under premises that are decidable (wfCheck_sound) and evaluated on every well-formed build of the probe; that model is compared with the real toposort.Graph on every run. FindCycle answers are validated by a Lean checker (cycleAnswerOK) and a Go oracle, not proved.',
+  note=COMMON_NOTE + '',
+  technique='Lean 4 invariant + refinement proof (Kahn, concrete graph) + differential correspondence',
+ ),
  'C16': dict(
-  text='Proved in Lean: consume_total (every author of the list resolves to an index within range) and consume_same_email (same lower-cased e-mail => same developer). Models of GeneratePeopleDict+Consume and of MergeReversedDictsIdentities are compared with the real functions on every run; '
-       'the component structure of merges is checked Go-side on well-formed lists (non-well-formed lists: known finding D9).',
+  text='Proved in Lean: consume_total (every author of the list resolves to an index within range) and consume_same_email (same lower-cased e-mail => same developer), descr_exact and descr_disjoint (the description of a developer lists exactly the names and e-mails that resolve to it, and no name or e-mail appears under two developers). Models of GeneratePeopleDict+Consume and of MergeReversedDictsIdentities are compared with the real functions on every run; the component structure of merges is checked Go-side on well-formed lists (non-well-formed lists: known finding D9).',
   note=COMMON_NOTE + 'strings.ToLower is an abstract idempotent function; mailmap parsing not modelled.',
-  technique='Lean 4 proof + differential correspondence'),
+  technique='Lean 4 proof + differential correspondence',
+ ),
  'C17': dict(
-  text='Proved in Lean: row_roundtrip (decode(encode row) = row with negatives clamped, for cells < 2^32; dropped trailing zeros restored). Sparse-row and CSR models are compared with the real Serialize/Deserialize on every run. Devs and couples messages: round trip checked Go-side.',
+  text='Proved in Lean: row_roundtrip (decode(encode row) = row with negatives clamped, for cells < 2^32; dropped trailing zeros restored). Sparse-row and CSR models are compared with the real Serialize/Deserialize on every run. couples_decode_encode (the couples message: file and people matrices, index tables). Devs message: round trip checked Go-side.',
   note=COMMON_NOTE + 'gogo/protobuf wire encoding is assumed to be the identity on messages.',
-  technique='Lean 4 proof + differential correspondence'),
+  technique='Lean 4 proof + differential correspondence',
+ ),
  'C18': dict(
-  text='Proved in Lean: mergeDevs_conserves (for every statistic additive over DevTick - commits, added, removed, changed - the total of the combined result is the sum of the inputs, for all identity lists, begin times and tick sizes). '
-       'Models of DevsAnalysis.MergeResults and MergeReversedDictsIdentities are compared with the real code on every run; couples and summary merges are checked Go-side; the burndown people part is a known finding (D6).',
+  text='Proved in Lean: mergeDevs_conserves (for every statistic additive over DevTick - commits, added, removed, changed - the total of the combined result is the sum of the inputs, for all identity lists, begin times and tick sizes). Models of DevsAnalysis.MergeResults and MergeReversedDictsIdentities are compared with the real code on every run; couples and summary merges are checked Go-side; the burndown people part is a known finding (D6).',
   note=COMMON_NOTE + 'float32 resampling in mergeMatrices is not modelled.',
-  technique='Lean 4 proof + differential correspondence'),
+  technique='Lean 4 proof + differential correspondence',
+ ),
  'C19': dict(
-  text='Proved in Lean: floorTime_spec (= t - t mod d), floorTime_dvd, tickOf_spec, tickOf_ge_prev (ticks never decrease along a branch), tickOf_monotone_times (with monotone times no raising, tick depends on the commit alone). '
-       'Model compared with FloorTime and the tick arithmetic of Consume on every run (boundaries +-1ns, pre-1990, far future, saturation).',
-  note=COMMON_NOTE + 'The tick-to-commits registry is checked Go-side only.',
-  technique='Lean 4 proof (integer arithmetic) + differential correspondence'),
+  text='Proved in Lean: floorTime_spec (= t - t mod d), floorTime_dvd, tickOf_spec, tickOf_ge_prev (ticks never decrease along a branch), tickOf_monotone_times (with monotone times no raising, tick depends on the commit alone), record_lists and recordAll_once (the tick-to-commits registry lists every consumed commit exactly once, under its tick). Model compared with FloorTime and the tick arithmetic of Consume on every run (boundaries +-1ns, pre-1990, far future, saturation).',
+  note=COMMON_NOTE + 'Truncate rounding of negative durations is a Go library fact (regenerated table in lean/Gen).',
+  technique='Lean 4 proof (integer arithmetic) + differential correspondence',
+ ),
  'C20': dict(
-  text='Proved in Lean: diffTree_applies (for trees with unique paths the reported changes applied to the previous set give the current set), filtered_applies (the same for filtered sets under every sane configuration), '
-       'consume_healthy (when every referenced blob is present BlobCache succeeds and every referenced hash has a real slot downstream). Models of TreeDiff.Consume+filterDiffs and BlobCache.Consume are compared with the real items on every run.',
+  text='Proved in Lean: diffTree_applies (for trees with unique paths the reported changes applied to the previous set give the current set), filtered_applies (the same for filtered sets under every sane configuration), consume_healthy (when every referenced blob is present BlobCache succeeds and every referenced hash has a real slot downstream). Models of TreeDiff.Consume+filterDiffs and BlobCache.Consume are compared with the real items on every run.',
   note=COMMON_NOTE + 'go-git tree diff and enry are parameters; language filter: known finding D10; first-commit submodules: D15.',
-  technique='Lean 4 proof + differential correspondence'),
+  technique='Lean 4 proof + differential correspondence',
+ ),
 }
 
 NOT_APPLICABLE = []
